@@ -497,7 +497,9 @@ def zsegment_cell(v, s, idxs):
 def list_cell(v, m, kind, names):
     fields = []
     for n in names:
-        first = T.seg_fields(v, n)[0]
+        rows = T.seg_fields(v, n)
+        # the first field that is not withdrawn (STRICT worlds cannot populate a withdrawn one)
+        first = next((r for r in rows if r[3][1] != 0 and r[2][2] != 'WD'), rows[0])
         dt = lit.first_leaf_dt(T, v, first[2])
         fields.append([n, None, None, ['%s%s%s' % (n, '|' * first[1], lit.valid(dt, k)) for k in range(5)],
                        [first[0]] + (_deeper(v, first[2]) or [])[:1]])
